@@ -19,11 +19,11 @@ PLAN = {
     "quick": {"configs": ["ext1", "ext0"], "nshards": 12, "nshards_ext0": 4, "timeout": 900, "tz": ["UTC", "America/New_York", "Europe/Paris", "Australia/Lord_Howe"]},
     "thorough": {"configs": ["ext1", "ext0"], "nshards": 16, "timeout": 3000, "suite": ["ext1"], "tz": ["UTC", "America/New_York", "Europe/Paris", "Australia/Lord_Howe"]},
 }
-DECIDING = ["add.exact", "subtract.exact", "td_add.exact", "td_sub.exact", "op.exact", "inverse"]
-FLOORS = {"quick": {"add.exact": 50000, "inverse": 20000, "op.exact": 5000},
-          "thorough": {"add.exact": 500000, "inverse": 200000, "op.exact": 50000}}
+DECIDING = ["add.exact", "subtract.exact", "td_add.exact", "td_sub.exact", "op.exact", "inverse", "concurrent"]
+FLOORS = {"quick": {"add.exact": 50000, "inverse": 20000, "op.exact": 5000, "concurrent": 20000},
+          "thorough": {"add.exact": 500000, "inverse": 200000, "op.exact": 50000, "concurrent": 100000}}
 REQUIRED_HOOKS = ["DateTime.add", "DateTime.subtract"]      # the private _add_timedelta_/_subtract_timedelta hooks add reach, the operators are judged at the boundary
-TECHNIQUE = "runtime contracts on add/subtract/timedelta paths with an integer-microsecond instant oracle and tz-database rendering; shards run under rotating process-local zones (TZ) with naive values around those zones' transitions"
+TECHNIQUE = "runtime contracts on add/subtract/timedelta paths with an integer-microsecond instant oracle and tz-database rendering; shards run under rotating process-local zones (TZ) with naive values around those zones' transitions; operator calls repeated while a second thread converts, and four threads shifting values of one zone at once (1 us switch interval), history judged offline"
 LEVEL_TEXT = ("every observed call of DateTime.add/subtract/_add_timedelta_/_subtract_timedelta with fixed-length units is "
               "judged against exact integer-us instants and the tz database; held on the executions observed, "
               "which enumerate every transition of every zone")
@@ -187,6 +187,9 @@ def cases(M):
     else:
         zones = gen.shard_zones(M)
     vias = ["add", "add_split", "sub", "op+", "op-", "radd", "td_add", "add_float"]
+    if M.shard % 2 == 0:
+        for zn in (("Europe/Paris", "America/New_York", "Australia/Lord_Howe", "Europe/London", "Asia/Tehran", "America/St_Johns")[M.shard // 2 % 6], r.choice(zones) if zones else "Europe/Paris"):
+            yield {"k": "threads", "z": zn, "seed": r.randrange(1 << 30), "n": 6000 if thorough else 1500}
     for zn in zones:
         z = tzdb.Z.get(zn)
         for i, (t, ob, oa, _) in enumerate(z.trans):
@@ -295,9 +298,63 @@ def _concurrent(M, x, d, tot, via):
     M.count("concurrent_conversions_seen", _BG["n"] - n0)
 
 
+def _threads(M, c):
+    """four threads shifting values of ONE named zone (one shared tzinfo object) by fixed-length amounts at the same time:
+    every thread records its results, the history is judged afterwards like any other shift"""
+    import random
+
+    from pvmon import conc
+
+    P = M.pendulum
+    r = random.Random(c["seed"])
+    zn = c["z"]
+    z = tzdb.Z.get(zn)
+    tr = [t for (t, ob, oa, _) in z.trans if gen.ok_instant(t * US, 800)] or [0]
+    items = []
+    for j in range(c["n"]):
+        t = tr[r.randrange(len(tr))] if j % 3 else r.randrange(0, 2 * 10**9)
+        u = t * US + r.randrange(-3 * 86400 * US, 3 * 86400 * US)
+        tot = r.choice((1, -1, 3600 * US, -3600 * US, 1800 * US, 86400 * US)) * r.randrange(1, 40) + r.randrange(US)
+        if not (gen.ok_instant(u, 800) and gen.ok_instant(u + tot, 800)):
+            continue
+        items.append((gen.mk(zn, u), tot, j % 4))
+
+    def one(it):
+        x, tot, how = it
+        if how == 0:
+            return x.add(microseconds=tot)
+        if how == 1:
+            return x + dt.timedelta(microseconds=tot)
+        if how == 2:
+            return x.subtract(microseconds=-tot)
+        return dt.timedelta(microseconds=tot) + x
+
+    M.quiet += 1
+    try:
+        hist, st = conc.run(items, one, nthreads=4, chunk=50)
+    finally:
+        M.quiet -= 1
+    for k_, v in st.items():
+        M.count("threads." + k_, v)
+    for t, i, kind, v in hist:
+        x, tot, how = items[i]
+        M.current = {"k": "threads-item", "z": zn, "u": inst(x), "tot": tot, "how": how}
+        if kind == "exc":
+            M.check("concurrent", False, f"C03/concurrent:raised-{type(v).__name__}", "a fixed-length shift raised while other threads shifted values of the same zone",
+                    start=judge.desc(x), amount_us=tot, exc=repr(v), thread=t)
+        else:
+            judge_shift(M, "concurrent", x, v, tot, "concurrent:" + ("add", "op+", "sub", "radd")[how])
+    M.cls("threads", zn)
+    M.current = c
+    M.sample(c)
+
+
 def run(M, c):
     import random
 
+    if c.get("k") == "threads":
+        _threads(M, c)
+        return
     x = _start(M, c)
     tot, via = c["tot"], c["via"]
     if "rawgap" in c:
